@@ -143,6 +143,45 @@ pub fn run(ctx: &Ctx, rep: &mut Report) {
             },
         );
     }
+    // ---- request options: a response is prepared whatever options the request carries
+    {
+        let nums: Vec<u16> = refmodel::registries::OPTIONS.iter().map(|o| o.0).chain([0u16, 2, 10, 259, 2049, 65000, 65535]).collect();
+        let radices = [nums.len() as u64, 258, 2];
+        let n = product(&radices);
+        ctx.family(
+            rep,
+            "request-options",
+            "CON/NON request carrying one option: every registered option number (and 7 unregistered ones) x value {absent value = empty, every single byte 0..255, a 300-byte value}: the reply is prepared and correlated as always",
+            n,
+            true,
+            |i, rep| {
+                let d = decode(i, &radices);
+                let num = nums[d[0] as usize];
+                let val: Vec<u8> = match d[1] {
+                    0 => vec![],
+                    257 => pattern(300, 9),
+                    b => vec![(b - 1) as u8],
+                };
+                let mut req = request_packet(1, d[2] as u8, 3, 0x4242, 0);
+                req.add_option(CoapOption::from(num), val);
+                let r = guard(|| {
+                    let a = CoapResponse::new(&req).map(|r| r.message);
+                    let b = CoapRequest::from_packet(req.clone(), 3u32);
+                    (a, b)
+                });
+                match r {
+                    Err(pn) => rep.violation(viol("request-options", i, format!("C07/panic@{}", pn.site()), pn.message, msg_json(&to_ref(&req)))),
+                    Ok((a, b)) => {
+                        let ok1 = check_reply("request-options", i, "CoapResponse::new", &req, a.as_ref(), rep);
+                        let ok2 = check_reply("request-options", i, "CoapRequest::from_packet", &req, b.response.as_ref().map(|r| &r.message), rep);
+                        if ok1 && ok2 {
+                            rep.bucket(&("ropt", num, d[1].min(2), d[2]));
+                        }
+                    }
+                }
+            },
+        );
+    }
     // ---- apply_from_error: every ResponseType and None x messages x response shapes
     {
         let codes: Vec<Option<u8>> = std::iter::once(None)
